@@ -1,8 +1,8 @@
 /-
 WP close2, final composition — the three sub-results put together over `World2` (bit-level PhiCache, PcProofs/Close2PhiWorld.lean):
 
-* `World2.pi_gourdon_s3`               `pi_gourdon_64 / 128` with the domain restriction reduced to `x < 2 ∨ 16 ≤ x`
-                                       (`piGourdon_total_to_ge16`, PcProofs/Close2SmallTop.lean) and NO cache hypothesis (`nested_s2`);
+* `World2.pi_gourdon_s3`               `pi_gourdon_64 / 128` with the domain restriction reduced to `x < 8 ∨ 16 ≤ x`
+                                       (`piGourdon_total_to_wide`, PcProofs/Close2TinyTop.lean, Close2SmallTop.lean) and NO cache hypothesis (`nested_s2`);
 * `World2.pi_deleglise_rivat_128_s2`   `pi_deleglise_rivat_128` over the world (`piDeleglieRivat128_total_to`, PcProofs/Close2Dr.lean);
 * `World2.OKmin` / `ok_of_min`         the world hypotheses when `W.phiNeg` is the function the bit-level `PhiCache::phi<-1>` computes
                                        (`phiNegIdeal`; justified by `World.phi_vector_is_cpp`): configuration range, the ONE float assumption, hints, size.
@@ -10,6 +10,7 @@ WP close2, final composition — the three sub-results put together over `World2
 import PcProofs.Close2PhiWorld
 import PcProofs.Close2PhiVec
 import PcProofs.Close2SmallTop
+import PcProofs.Close2TinyTop
 import PcProofs.Close2Dr
 
 namespace Pc.Close
@@ -39,15 +40,15 @@ theorem okmin_of_bnd50 (W : World2) {B : ℕ} (hneg : W.phiNeg = phiNegIdeal) (k
     float := fun a b hlt => It.floatOk_window_below_2_50 W.l1raw W.kib a b kib_lo kib_hi (lt_of_lt_of_le hlt hb),
     hints := hints, size := size }
 
-/-- `pi_gourdon_64(x)` / `pi_gourdon_128(x)` over the world with the bit-level phi, `x < 2` or `x ≥ 16` -/
+/-- `pi_gourdon_64(x)` / `pi_gourdon_128(x)` over the world with the bit-level phi, every `x` of the type except `8 ≤ x ≤ 15` -/
 theorem pi_gourdon_s3 (W : World2) {B : ℕ} (h : W.toWorld.OK B) (hB : B < 2 ^ 32) (c : Sieve.Cfg) (f : Sieve.StopFn) (pi : ℕ → ℕ)
-    (wide : Bool) (x : ℤ) (hx : InType wide x) (hsmall : x < 2 ∨ 16 ≤ x) (threads : ℤ) (isPrint : Bool) (r : GRun)
+    (wide : Bool) (x : ℤ) (hx : InType wide x) (hsmall : x < 8 ∨ 16 ≤ x) (threads : ℤ) (isPrint : Bool) (r : GRun)
     (hphi : ∀ n : ℕ, (n : ℤ) < x → maxCached < n → n ≤ meisselMax → W.PhiRunOK2 n)
     (hrec : W.NestedS2 c f B pi x)
     (hex : 2 ≤ x → GExecC (W.toWorld.tablesS c f wide) B wide x.toNat r) :
     piGourdon (W.toWorld.tablesS c f wide) pi wide x threads isPrint r = .ok (π x.toNat : ℤ) ∨
       piGourdon (W.toWorld.tablesS c f wide) pi wide x threads isPrint r = .error (.hard .badRun) :=
-  piGourdon_total_to_ge16 (W.toWorld.tablesS c f wide) (W.toWorld.tablesS_ok h hB c f wide) (W.toWorld.it_specTo h)
+  piGourdon_total_to_wide (W.toWorld.tablesS c f wide) (W.toWorld.tablesS_ok h hB c f wide) (W.toWorld.it_specTo h)
     World.maxPrime64_ge pi wide x hx hsmall threads isPrint r (W.nested_s2 h hB c f pi x hphi hrec) hex
 
 /-- `pi_deleglise_rivat_128(x)` over the world with the bit-level phi, every int128 `x` (accepted by the range check: `DrExec.accept`) -/
